@@ -5,7 +5,9 @@
  *   - struct sizes, alignments, member offsets and fixed array lengths,
  *   - the binary schema (bfbs) decoded with the reflection reader: default_integer / default_real, enum values.
  *
- * protocol (one request per line):   p <hex of schema text>
+ * protocol (one request per line):   p <hex of schema text>                    default options (flatcc_init_options)
+ *                                     o <opt=val,...> <hex of schema text>      documented flatcc_options_t switches that decide
+ *                                       literal acceptance: asc (ascending_enum), abc (allow_boolean_conversion), strict (strict_enum_init)
  * reply:   REJ <first diagnostic, spaces as '_'>
  *          OK <token> <token> ...           tokens contain no spaces:
  *             enum:<name>:<st>:<flags>      m:<name>=<val>=<literal>
@@ -179,13 +181,29 @@ int main(void)
     char *line, *tok[4];
     while ((line = hx_getline())) {
         int n = hx_split(line, tok, 4);
-        if (n == 2 && !strcmp(tok[0], "p")) {
-            uint8_t *src; size_t len = hx_decode(tok[1], &src);
+        if ((n == 2 && !strcmp(tok[0], "p")) || (n == 3 && !strcmp(tok[0], "o"))) {
+            uint8_t *src; size_t len = hx_decode(tok[n - 1], &src);
             flatcc_options_t opts;
             flatcc_context_t ctx;
-            int ret;
+            int ret, badopt = 0;
             flatcc_init_options(&opts);
             opts.bgen_bfbs = 1;
+            if (n == 3) {
+                char *q = tok[1];
+                while (q && *q) {
+                    char *e = strchr(q, ','), *eq;
+                    if (e) *e++ = 0;
+                    eq = strchr(q, '=');
+                    if (!eq) { badopt = 1; break; }
+                    *eq++ = 0;
+                    if (!strcmp(q, "asc")) opts.ascending_enum = atoi(eq);
+                    else if (!strcmp(q, "abc")) opts.allow_boolean_conversion = atoi(eq);
+                    else if (!strcmp(q, "strict")) opts.strict_enum_init = atoi(eq);
+                    else { badopt = 1; break; }
+                    q = e;
+                }
+            }
+            if (badopt) { printf("BAD option\n"); free(src); fflush(stdout); continue; }
             nerr = 0; first_err[0] = 0;
             ctx = flatcc_create_context(&opts, "t", err_out, 0);
             if (!ctx) { printf("REJ no-context\n"); free(src); fflush(stdout); continue; }
